@@ -15,10 +15,12 @@ PID = "C13"
 LEAN_MODULE = "NiVerif.Props.C13"
 NAMESPACE = "Props.C13"
 DRIVER = "drivers/Wfm.lean"
-GEN_MODULES = ["TimeValueTuple", "TimeDelta", "DateTime", "BtDtypes", "ExtProps", "Units"]
+GEN_MODULES = ["TimeValueTuple", "TimeDelta", "DateTime", "BtDtypes", "ExtProps", "Units", "BtElemSites", "WfmReduce"]
 EXTRA_LEAN_MODULES = ["NiVerif.Model.WfmProto", "NiVerif.Props.ExtProps", "NiVerif.Props.C19"]
 THEOREMS = ["pickle_succeeds", "pickle_observe", "eq_ignores_slack", "pickle_equal", "pickle_twice", "timing_pickle",
             "bintime_pickle",
+            # tier T30: the argument lists of __reduce__ of the three buffer classes (Gen/WfmReduce)
+            "gen_pickle_eq_model", "gen_reduce_passes_all_but_slack", "gen_reduce_reads_window", "gen_unpickle_is_ctor_call", "gen_pickle_observe",
             "Props.ExtProps.gen_init_copies",
             "Props.C19.gen_Scalar_pickle_props", "Props.C19.gen_Vector_pickle_props", "Props.C19.gen_XYData_pickle_props"]
 RULE = ("values of every public type — DateTime, TimeDelta (128-bit edge lattice), DateTimeArray, TimeDeltaArray, "
